@@ -239,6 +239,8 @@ func (m *Machine) runPath(fn *ssa.Function, name string, item WorkItem) (res Pat
 			for j, t := range it.terms {
 				c.S[j] = int(m.st.Eval(t, m.env))
 			}
+		case "input":
+			c.S = it.S
 		case "pick", "param":
 		default:
 			c.V = m.st.Eval(it.terms[0], m.env)
